@@ -56,7 +56,11 @@ func (lp LinkPrototype) BuildLink(hashsum []byte) datamodel.Link {
 		panic(fmt.Errorf("invalid cid v0 prefix"))
 	}
 
-	if length != -1 {
+	if length != -1 && p.MhLength >= 0 && p.MhLength <= len(hashsum) {
+		// Truncate to the requested digest length.  A prefix asking for more
+		// bytes than the hash function produced (possible for a CID parsed from
+		// untrusted data) cannot be satisfied: keep the whole digest, which
+		// yields a link that compares unequal instead of slicing out of range.
 		hashsum = hashsum[:p.MhLength]
 	}
 
